@@ -18,7 +18,8 @@ RULE = ("per-run seed -> one document-level operation sequence organised in roun
         "earlier rounds, then adds/groups; every key touched at most once per round) executed under 2-4 layout schedules: "
         "different partitions of the same operations into commits, a merge choice per commit {none, default, optimize, "
         "custom subset}, different codec block sizes / sort-pool limits / packing per layout, plus the baseline (one commit "
-        "per round, optimised at the end). Every layout's full logical dump after every commit must equal the model; "
+        "per round, optimised at the end); a quarter of the runs add a 'staircase' layout (one transaction per operation, never "
+        "merging, then default-policy commits: many equal-sized segments); the schema may hold a dynamic (glob) field. Every layout's full logical dump after every commit must equal the model; "
         "group members must stay adjacent and in order; optimize must physically drop deleted documents and removed "
         "fields; without deletions collection statistics must not depend on the layout. Non-trivial = >=2 layouts, each "
         "with >=1 commit; distinct = distinct SHA-256 over the layouts' event logs.")
